@@ -7,7 +7,9 @@ from concurrent.futures import ThreadPoolExecutor
 
 VERIF = os.path.dirname(os.path.dirname(os.path.abspath(__file__)))
 REPO = os.environ.get("VERIF_REPO", "/repo")
-CACHE = os.path.join(VERIF, ".cache")
+# binaries built from a scratch copy of the tree (bin/mutest, bin/run_seeds) are cached inside that copy, so that parallel runs
+# on different trees never remove each other's binaries
+CACHE = os.path.join(VERIF, ".cache") if os.path.realpath(REPO) == "/repo" else os.path.join(REPO, ".vcache")
 SPEC = os.path.join(VERIF, "spec")
 SPEC_DIRS = [os.path.join(SPEC, d) for d in ("base", "glm", "machine", "mc", "trace", "proofs")]
 TLA_JARS = "/opt/veriftools/tla/tla2tools.jar:/opt/veriftools/tla/CommunityModules-deps.jar"
